@@ -186,17 +186,18 @@ impl C13 {
                 _ => {
                     // descending arrival of separately flushed packets
                     let ch = pick_chan(&mut ctx.src, w, d);
-                    let n = 20 + ctx.src.below(120);
+                    let n = 20 + ctx.src.below(ctx.tier.pick(380, 700));
+                    let jump = ctx.src.pick(&[0u64, 1 << 14, 1 << 31, 1 << 31]);
                     let mut all = vec![];
                     for i in 0..n {
                         w.send(d, ch, 1 + (i % 3), true, 0)?;
                         all.extend(w.flush(d)?);
-                        // leave a hole after every packet
+                        // leave a hole (small or wide) after every packet
                         let s = if d.to_client { w.server.verif_connection_mut(client_id(d.client)) } else { w.clients.get_mut(d.client) };
                         if let Some(s) = s {
                             let cur = s.verif_packet_sequence();
                             if cur < (1 << 61) {
-                                s.verif_set_packet_sequence(cur + 1 + (i as u64 % 3));
+                                s.verif_set_packet_sequence(cur + 1 + (i as u64 % 3) + jump);
                             }
                         }
                     }
@@ -204,7 +205,7 @@ impl C13 {
                         w.handover(pid)?;
                     }
                     ctx.label("descending_arrival");
-                    ctx.op(&("descending", d.client, d.to_client, ch, n));
+                    ctx.op(&("descending", d.client, d.to_client, ch, n, jump));
                 }
             }
             Ok(())
@@ -290,7 +291,7 @@ impl Property for C13 {
         vec!["counter presets stand for long-running sessions (2^62 packets cannot be sent in a test); values stay below 2^62-1, the varint limit".into()]
     }
     fn pbt(&self, tier: Tier) -> PbtCfg {
-        PbtCfg { cases: tier.pick(4_000, 150_000), max_len: tier.pick(1500, 4000), shrink_ms: 120_000 }
+        PbtCfg { cases: tier.pick(2_500, 100_000), max_len: tier.pick(1500, 4000), shrink_ms: 120_000 }
     }
     fn required_labels(&self) -> Vec<&'static str> {
         vec!["wide_varint", "full_packet_tiny_messages", "ack_60_ranges", "renet_packet_near_limit", "payload_at_limit", "netcode_case", "gap_burst", "descending_arrival", "tiny_burst"]
